@@ -201,6 +201,8 @@ def rule_pool_keyed(ctx, workers):
                 ok = True
             if isinstance(par_, ast.For) and par_.iter is u and isinstance(par_.target, ast.Tuple) and len(par_.target.elts) == 2:
                 ok = True
+            if isinstance(par_, ast.Call) and call_name(par_) == "dict" and len(par_.args) == 1 and par_.args[0] is u and not par_.keywords:
+                ok = True  # dict(pairs): keyed by the first component of each pair
             if not ok:
                 bad.append(u)
         ctx.ob(R, construct(fi, f"`{res}` is consumed only by destructuring (feature, result) pairs"), not bad and bool(uses), loc(fi, bad[0] if bad else node),
